@@ -318,6 +318,22 @@ pub fn name_classes(d: &RawDump) -> Namer {
         }
     }
     let mut namer = Namer { names: BTreeMap::new() };
+    // Phase 1: minimal term size per class (unique least fixpoint, independent of any text).
+    fn val_size(v: &Val, sizes: &BTreeMap<ClassKey, usize>) -> Option<usize> {
+        match v {
+            Val::Base(_) => Some(1),
+            Val::RelOut => Some(0),
+            Val::Class(s, _, c) => sizes.get(&(s.clone(), *c)).copied(),
+            Val::Cont(_, _, _, es) => {
+                let mut n = 1usize;
+                for e in es {
+                    n += val_size(e, sizes)?;
+                }
+                Some(n)
+            }
+        }
+    }
+    let mut sizes: BTreeMap<ClassKey, usize> = BTreeMap::new();
     loop {
         let mut changed = false;
         for t in &d.tables {
@@ -327,15 +343,11 @@ pub fn name_classes(d: &RawDump) -> Namer {
             for r in &t.rows {
                 let (out, ins) = r.vals.split_last().unwrap();
                 let Val::Class(s, _, c) = out else { continue };
-                let mut size = 1;
-                let mut parts = vec![];
+                let mut size = 1usize;
                 let mut ok = true;
                 for v in ins {
-                    match namer.name(v) {
-                        Some((n, s)) => {
-                            size += n;
-                            parts.push(s);
-                        }
+                    match val_size(v, &sizes) {
+                        Some(n) => size += n,
                         None => {
                             ok = false;
                             break;
@@ -345,13 +357,11 @@ pub fn name_classes(d: &RawDump) -> Namer {
                 if !ok {
                     continue;
                 }
-                let text = if parts.is_empty() { format!("({})", t.name) } else { format!("({} {})", t.name, parts.join(" ")) };
-                let cand = (size, shorten(text));
                 let key = (s.clone(), *c);
-                match namer.names.get(&key) {
-                    Some(cur) if *cur <= cand => {}
+                match sizes.get(&key) {
+                    Some(cur) if *cur <= size => {}
                     _ => {
-                        namer.names.insert(key, cand);
+                        sizes.insert(key, size);
                         changed = true;
                     }
                 }
@@ -359,6 +369,52 @@ pub fn name_classes(d: &RawDump) -> Namer {
         }
         if !changed {
             break;
+        }
+    }
+    // Phase 2: names in order of increasing size. A minimal-size row only has children of strictly smaller
+    // size, whose final names are already fixed, so the result does not depend on row or table order.
+    let mut by_size: Vec<(usize, ClassKey)> = sizes.iter().map(|(k, n)| (*n, k.clone())).collect();
+    by_size.sort();
+    let mut rows_of: BTreeMap<ClassKey, Vec<(&RawTable, &RawRow)>> = BTreeMap::new();
+    for t in &d.tables {
+        if t.kind != TableKind::Constructor {
+            continue;
+        }
+        for r in &t.rows {
+            if let Some(Val::Class(s, _, c)) = r.vals.last() {
+                rows_of.entry((s.clone(), *c)).or_default().push((t, r));
+            }
+        }
+    }
+    for (size, key) in by_size {
+        let mut best: Option<String> = None;
+        for (t, r) in rows_of.get(&key).map(|v| v.as_slice()).unwrap_or(&[]) {
+            let ins = &r.vals[..r.vals.len() - 1];
+            let mut total = 1usize;
+            let mut parts = vec![];
+            let mut ok = true;
+            for v in ins {
+                match (val_size(v, &sizes), namer.name(v)) {
+                    (Some(n), Some((_, s))) => {
+                        total += n;
+                        parts.push(s);
+                    }
+                    _ => {
+                        ok = false;
+                        break;
+                    }
+                }
+            }
+            if !ok || total != size {
+                continue;
+            }
+            let text = shorten(if parts.is_empty() { format!("({})", t.name) } else { format!("({} {})", t.name, parts.join(" ")) });
+            if best.as_ref().map(|b| text < *b).unwrap_or(true) {
+                best = Some(text);
+            }
+        }
+        if let Some(b) = best {
+            namer.names.insert(key, (size, b));
         }
     }
     // orphans: classes with no term. Name by colour refinement over occurrences.
